@@ -484,7 +484,12 @@ def run_history(ctx, jax, fedjax, case, tmpdir):
               f'{"aggregated params" if is_agg else "diagnostics"} at {d and d[0]}', {**w, 'where': d})
     # (3) branches continued from the restored copies of this round's input state
     for how, rs in restored.items():
+      rs_snap = take(rs)
       rr = guarded(f'{sname}.apply[restored-{how}]', apply, rs, system.inputs(rs, clients) if is_agg else inputs, w=w)
+      bad = first(diff_snapshot(rs_snap, rs))
+      ctx.check(bad is None, f'purity/{sname}-restored-input-harmed',
+                f'round {rnd}: apply changed / deleted a leaf or container of the {how}-restored state it was given: '
+                f'{bad and bad[:2]}', {**w, 'restored_by': how})
       if rr.ok:
         d = first(diff_values(r1.value, rr.value))
         ctx.check(d is None, f'serial/{sname}-continuation-differs-{how}',
@@ -512,6 +517,11 @@ def run_history(ctx, jax, fedjax, case, tmpdir):
       restored['pickle'] = pickle.loads(pickle.dumps(new_state))
     except Exception as e:  # pylint: disable=broad-except
       ctx.violation(f'serial/{sname}-pickle-raises-{type(e).__name__}', f'pickling the state raised {e}'[:300], w)
+    # a checkpoint library that restores every leaf as a (mutable) NumPy array, Python scalars included
+    try:
+      restored['numpy'] = jax.tree_util.tree_map(lambda l: np.array(l), new_state)
+    except Exception as e:  # pylint: disable=broad-except
+      raise core.HarnessError(f'numpy restore failed: {e}')
     for how, rs_ in restored.items():
       d = first(diff_values(new_state, rs_))
       ctx.check(d is None, f'serial/{sname}-restored-state-differs-{how}',
